@@ -405,14 +405,47 @@ type c09State struct {
 	lazy, eager scte35.SCTE35
 	m           c09Model
 	snap        []byte // content of lazy.Data() after the last UpdateData() (or as decoded)
+	// byte-slice arguments handed to setters with spare capacity behind them: the spare bytes belong to
+	// the caller and must keep their guard value whatever the object does later
+	guards []c09Guard
+}
+
+type c09Guard struct {
+	buf []byte
+	n   int
+}
+
+const c09GuardByte = 0xEE
+
+// guarded returns data as a slice with 8 bytes of caller-owned spare capacity behind it.
+func (st *c09State) guarded(data []byte) []byte {
+	buf := make([]byte, len(data)+8)
+	copy(buf, data)
+	for i := len(data); i < len(buf); i++ {
+		buf[i] = c09GuardByte
+	}
+	st.guards = append(st.guards, c09Guard{buf, len(data)})
+	return buf[:len(data)]
+}
+
+func (st *c09State) guardsIntact() bool {
+	for _, g := range st.guards {
+		for _, b := range g.buf[g.n:] {
+			if b != c09GuardByte {
+				return false
+			}
+		}
+	}
+	return true
 }
 
 type c09Op struct {
 	name    string
 	enabled func(m *c09Model) bool
 	do      func(s scte35.SCTE35)
-	model   func(m *c09Model, s scte35.SCTE35) // s: the object after do, for the documented "not asserted" resynchronisations
-	update  bool                               // the op is UpdateData()
+	model   func(m *c09Model, s scte35.SCTE35)  // s: the object after do, for the documented "not asserted" resynchronisations
+	update  bool                                // the op is UpdateData()
+	doSt    func(st *c09State, s scte35.SCTE35) // replaces do when the call needs caller-owned buffers of the state
 }
 
 func c09Ins(s scte35.SCTE35) scte35.SpliceInsertCommand {
@@ -648,6 +681,7 @@ func c09MakeOps() (sig, desc []c09Op) {
 			}})
 	}
 	dv("SetUPID(8 bytes)", c09D0NotMID, func(d scte35.SegmentationDescriptor) { d.SetUPID([]byte{1, 2, 3, 4, 5, 6, 7, 8}) }, func(g *ref.S35Seg) { g.UPID = []byte{1, 2, 3, 4, 5, 6, 7, 8} })
+	desc[len(desc)-1].doSt = func(st *c09State, s scte35.SCTE35) { c09D0(s).SetUPID(st.guarded([]byte{1, 2, 3, 4, 5, 6, 7, 8})) }
 	dv("SetUPID(empty)", c09D0NotMID, func(d scte35.SegmentationDescriptor) { d.SetUPID([]byte{}) }, func(g *ref.S35Seg) { g.UPID = nil })
 	dv("SetMID(ADI 'ab', user-defined '')", c09D0IsMID, func(d scte35.SegmentationDescriptor) {
 		a, b := scte35.CreateUPID(), scte35.CreateUPID()
@@ -660,6 +694,7 @@ func c09MakeOps() (sig, desc []c09Op) {
 	})
 	dv("SetMID(none)", c09D0IsMID, func(d scte35.SegmentationDescriptor) { d.SetMID(nil) }, func(g *ref.S35Seg) { g.MID = nil })
 	dv("MID()[0].SetUPID(5 bytes)", c09D0HasMID, func(d scte35.SegmentationDescriptor) { d.MID()[0].SetUPID([]byte("hello")) }, func(g *ref.S35Seg) { g.MID[0].Data = []byte("hello") })
+	desc[len(desc)-1].doSt = func(st *c09State, s scte35.SCTE35) { c09D0(s).MID()[0].SetUPID(st.guarded([]byte("hello"))) }
 	dv("MID()[0].SetUPIDType(ISAN)", c09D0HasMID, func(d scte35.SegmentationDescriptor) { d.MID()[0].SetUPIDType(scte35.SegUPIDISAN) }, func(g *ref.S35Seg) { g.MID[0].Type = 0x05 })
 	dv("SetComponents({7, 2^32})", c09HasD0, func(d scte35.SegmentationDescriptor) {
 		k := scte35.CreateComponentOffset()
@@ -806,7 +841,11 @@ func c09Apply(ops []c09Op) func(st *c09State, op int, res *engine.Result) bool {
 			return false
 		}
 		cmp := &c08Cmp{res: res, op: op.name}
-		if engine.Guard(res, op.name, func() { op.do(st.lazy) }) {
+		call := op.do
+		if op.doSt != nil {
+			call = func(s scte35.SCTE35) { op.doSt(st, s) }
+		}
+		if engine.Guard(res, op.name, func() { call(st.lazy) }) {
 			return true
 		}
 		if engine.Guard(res, op.name, func() { op.model(&st.m, st.lazy) }) {
@@ -840,10 +879,13 @@ func c09Apply(ops []c09Op) func(st *c09State, op int, res *engine.Result) bool {
 		ecmp := &c08Cmp{res: res, op: "UpdateData", what: "eager twin: " + cmp.what}
 		var out []byte
 		if engine.Guard(res, op.name+" + UpdateData()", func() {
-			op.do(st.eager)
+			call(st.eager)
 			out = st.eager.UpdateData()
 		}) {
 			return true
+		}
+		if !st.guardsIntact() {
+			cmp.failf(class, "setter argument's spare capacity overwritten", "bytes behind a []byte argument of an earlier setter call (caller-owned spare capacity) were modified")
 		}
 		if c09Judge(ecmp, class, out, &want, false) {
 			c09AfterEncode(ecmp, class, st.eager, out, &want)
